@@ -25,7 +25,9 @@ AUDIT_FILE = "LoguruModel/Audit/C13.lean"
 DRIVER = "C13"
 RULE = ("one case = (generated program, entry point, sys.tracebacklimit) logged through 8 handlers "
         "(backtrace x diagnose x colorize); programs are built from call/raise/from/implicit-context/from-None/"
-        "re-raise/notes/groups/groups-in-handlers/cycles/never-raised causes/SyntaxError/recursion/bad __str__ "
+        "re-raise/notes/groups/groups-in-handlers/cycles/never-raised causes/SyntaxError/recursion/bad __str__/"
+        "customised __eq__ __hash__ __len__ (unhashable dataclass, raising hash/eq, eq-always-True, value-equal "
+        "instances meeting in one chain, falsy) "
         "pieces with secret, huge-repr and raising-repr objects in frame variables; non-trivial = the exception "
         "graph has >= 2 exceptions or a group or a repeated frame; distinct by (program seed, entry, limit)")
 TRUSTED = [
@@ -104,7 +106,23 @@ def make_pool():
 # ----------------------------------------------------------------------------- program generator
 CLASS_KINDS = [("plain", "Exception", 40), ("value", "ValueError", 12), ("key", "KeyError", 8),
                ("assert", "AssertionError", 10), ("badstr", "Exception", 8), ("badstr_assert", "AssertionError", 6),
-               ("badrepr", "Exception", 5), ("syntax", "SyntaxError", 5), ("oserr", "OSError", 6)]
+               ("badrepr", "Exception", 5), ("syntax", "SyntaxError", 5), ("oserr", "OSError", 6),
+               # customised identity: the formatter must key its cycle detection on object identity and must not
+               # hash or compare the exception objects ("whatever the exception object is")
+               ("unhashable_dc", "Exception", 5), ("unhashable_eq", "Exception", 4), ("hashraise", "Exception", 4),
+               ("eqtrue", "Exception", 4), ("eqraise", "Exception", 3), ("valueeq", "Exception", 6),
+               ("frozen_dc", "Exception", 4), ("falsy", "Exception", 3)]
+ODD_KINDS = ("unhashable_dc", "unhashable_eq", "hashraise", "eqtrue", "eqraise", "valueeq", "frozen_dc", "falsy")
+ODD_BODY = {
+    "unhashable_eq": "    def __eq__(self, other):\n        return type(other) is type(self) and other.args == self.args\n"
+                     "    __hash__ = None\n",
+    "hashraise": "    def __hash__(self):\n        raise RuntimeError('hash failed')\n",
+    "eqtrue": "    def __eq__(self, other):\n        return True\n    def __hash__(self):\n        return 7\n",
+    "eqraise": "    def __eq__(self, other):\n        raise RuntimeError('eq failed')\n    def __hash__(self):\n        return 7\n",
+    "valueeq": "    def __eq__(self, other):\n        return type(other) is type(self) and other.args == self.args\n"
+               "    def __hash__(self):\n        return hash((type(self).__name__, self.args))\n",
+    "falsy": "    def __len__(self):\n        return 0\n",
+}
 
 
 class Prog:
@@ -114,6 +132,7 @@ class Prog:
         self.nf = 0
         self.max_funcs = max_funcs
         self.features = set()
+        self.odd = []          # classes with customised __eq__/__hash__/__len__, reused so that equal instances meet
 
     def new_class(self, kind=None, group=False):
         r = self.rng
@@ -137,6 +156,11 @@ class Prog:
             src += "    def __str__(self):\n        raise RuntimeError('str failed')\n"
         elif kind == "badrepr":
             src += "    def __repr__(self):\n        raise RuntimeError('repr failed')\n"
+        elif kind in ("unhashable_dc", "frozen_dc"):
+            # the everyday case: a dataclass exception (eq=True -> __hash__ None; frozen -> value hash)
+            src = "@dataclass%s\n" % ("(frozen=True)" if kind == "frozen_dc" else "") + src + "    msg: str\n"
+        elif kind in ODD_BODY:
+            src += ODD_BODY[kind]
         else:
             src += "    pass\n"
         self.classes.append(src)
@@ -144,7 +168,13 @@ class Prog:
         return name, kind
 
     def new_exc(self, kind=None):
+        if kind is None and self.odd and self.rng.chance(30):
+            # another instance of an already used class with the same arguments: equal but distinct objects
+            return "%s('same')" % self.rng.choice(self.odd)
         name, kind = self.new_class(kind)
+        if kind in ODD_KINDS:
+            self.odd.append(name)
+            return "%s('same')" % name if self.rng.chance(60) else "%s(M())" % name
         if kind == "syntax":
             return "%s(M(), ('bad_source.py', 3, 5, 'x = = 1\\n', 3, 8))" % name
         if kind in ("assert", "badstr_assert") and self.rng.chance(60):
@@ -255,10 +285,14 @@ class Prog:
 
     def source(self):
         top = self.make(self.rng.range(1, 6))
-        return "".join(self.classes) + "\n" + "\n".join(self.funcs) + "\ndef main():\n    w = GSECRET\n    return %s(w)\n" % top
+        return "from dataclasses import dataclass\n" + "".join(self.classes) + "\n" + "\n".join(self.funcs) + "\ndef main():\n    w = GSECRET\n    return %s(w)\n" % top
 
 
 # ----------------------------------------------------------------------------- running one case
+class SkipCase(Exception):
+    pass
+
+
 class Sink:
     """callable sink; the first call of a logging event captures the heap from the live objects"""
 
@@ -267,7 +301,9 @@ class Sink:
 
     def __call__(self, message):
         sh = self.shared
-        if sh.get("heap") is None:
+        if message.record["exception"] is None:
+            sh["noexc"] = True
+        elif sh.get("heap") is None:
             sh["heap"] = capture_heap(message.record["exception"], sh["genfile"])
             sh["exc"] = message.record["exception"]
         sh["out"][self.mode] = str(message)
@@ -388,6 +424,7 @@ def run_case(src, genfile, entry, limit):
                 try:
                     main()
                 except BaseException as e:
+                    shared["root_falsy"] = not safe(lambda: bool(e), True)
                     logger.opt(exception=e).error("M")
             elif entry == "decorator":
                 logger.catch(message="M")(main)()
@@ -408,6 +445,9 @@ def run_case(src, genfile, entry, limit):
                 logger.remove(h)
             except ValueError:
                 pass
+    if err is None and shared.get("noexc") and shared.get("root_falsy"):
+        # documented: opt(exception=x) attaches the exception only "if it does not evaluate as False"
+        err = SkipCase("falsy exception passed to opt(exception=)")
     return shared["out"], shared["heap"], shared.get("exc"), err
 
 
@@ -719,6 +759,9 @@ def shared_nodes(heap):
 def judge_case(ctx, rep, src, genfile, entry, limit, outs, heap, exc_info, err, lines, pending):
     """all direct oracles for one executed case; queues the model lines"""
     from_dec = entry == "decorator"
+    if isinstance(err, SkipCase):
+        ctx.stat("skipped:" + str(err))
+        return
     if err is not None:
         key = F12_KEY if isinstance(err, RecursionError) and len(heap or []) > 250 else None
         ctx.violation("oracle 3 (never fails): %s escaped from logging an exception: %r" % (type(err).__name__, err),
@@ -908,7 +951,7 @@ def run(ctx):
                     std_expect.append((rep, heap, skel))
                 linecache.cache.pop(genfile, None)
         for f in features:
-            ctx.stat("feature:" + f.split(":")[0])
+            ctx.stat("feature:" + (f if f.startswith("class:") else f.split(":")[0]))
         if len(ctx.violations) > 30:
             break
     sys.setrecursionlimit(old_limit)
